@@ -1346,9 +1346,9 @@ def oracle(case, impl, model):
     invalid = model["invalid"]
     if not invalid:
         return fails
-    # the class name the message heads must carry: the declared one; for a class typedpy derived, the name the
-    # Lean model gives it (derivedName) - never read off the real class
-    cls_name = (model.get("clsName") if case.get("via") else None) or case["cls"]["name"]
+    # the class name the message heads carry: the declared one; for a class typedpy derived, the real one (whether it
+    # stays in [\\w.]+ is the model's prediction, Lean derivedName; a non-word character no declared name has is typedpy's)
+    cls_name = (impl.get("cls_name_real") if case.get("via") else None) or case["cls"]["name"]
     invalid_kinds = set()
     supplied = [k for k, _ in case["kw"]]
     supplied_kinds = set(fd["k"] for n, fd in case["cls"]["fields"] if n in supplied)
@@ -1442,7 +1442,7 @@ def oracle(case, impl, model):
         else:
             p = path_of_text(t, cls_name)
             if p is not None and any(names_field(p, cls_name, n) for n in (own(idx) if idx < len(texts) else invalid)):
-                declared = cls_name + "".join(n for n, _ in case["cls"]["fields"]) + ((case.get("via") or {}).get("name") or "")
+                declared = case["cls"]["name"] + "".join(n for n, _ in case["cls"]["fields"]) + ((case.get("via") or {}).get("name") or "")
                 lost_keys.append((classify_lost(t, p, declared),
                                   f"ErrorInfo.field={i.get('field')!r} does not name the invalid field although the message does: {t!r} [{where}]"))
             # else: already reported under (2)
